@@ -112,3 +112,58 @@ class ReversedContour(Contract):
         prop("segments-reversed-start-point-kept-when-closed", lambda a, old, r: ReversedContour._reversed_ok(a, r)),
         prop("reversing-twice-restores-the-geometry", lambda a, old, r: ReversedContour._involution(a, r)),
     ]
+
+
+# -- segment pen -> point pen -> segment pen ----------------------------------------------------------
+
+def _rot_eq(got, want, closed):
+    """equal segment lists; for closed contours up to a rotation of the start point"""
+    if not closed or not want:
+        return _eq_segs(got, want)
+    if len(got) != len(want):
+        return False
+    return Or(*[_eq_segs(got, want[k:] + want[:k]) for k in range(len(want))])
+
+
+@contract
+class SegmentPointRoundTrip(Contract):
+    """SegmentToPointPen feeding PointToSegmentPen feeding a RecordingPen: the recorded contour
+    has the same Bezier segments as the drawn one (closed contours: possibly starting at another
+    on-curve point), for every structure of up to three segments, open and closed, both
+    outputImpliedClosingLine settings; all points symbolic."""
+    module = "fontTools.pens.pointPen"
+    qualname = "PointToSegmentPen._flushContour"
+    props = ("C14",)
+    shadow_mode = "real"
+    level = "PF"
+    assumptions = ("A-REAL",)
+    variants = ReversedContour.variants
+    max_paths = 20000
+
+    variants_for = ReversedContour.variants_for
+    args = ReversedContour.args
+
+    def call(self, f, a):
+        from fontTools.pens.pointPen import PointToSegmentPen, SegmentToPointPen
+        from fontTools.pens.recordingPen import RecordingPen
+        rec = RecordingPen()
+        pen = SegmentToPointPen(PointToSegmentPen(rec, outputImpliedClosingLine=a.outputImpliedClosingLine), guessSmooth=False)   # smooth guessing uses atan2: outside the verifier, and not geometry
+        for op, pts in a.contour:
+            getattr(pen, op)(*pts)
+        return rec.value
+
+    @staticmethod
+    def _post(a, r):
+        want, (start, closed) = segments(a._orig)
+        if not r:
+            return False
+        got, (gstart, gclosed) = segments(r)
+        if not want:
+            # every segment has zero length: the contour is a single point, which encloses nothing
+            # (it may come back open); it must not grow a segment
+            return len(got) == 0 and And(eq(gstart[0], start[0]), eq(gstart[1], start[1]))
+        if gclosed != closed:
+            return False
+        return _rot_eq(got, want, closed)
+
+    ensures = [prop("same-segments-after-the-point-protocol", lambda a, old, r: SegmentPointRoundTrip._post(a, r))]
